@@ -39,6 +39,10 @@ struct Reference {
     answers: Vec<String>,
     meta: Value,
     template: PathBuf,
+    /// An index directory holding other documents, built once before any
+    /// child process is spawned (an open IndexWriter's lock file descriptor
+    /// must never be inherited by a concurrently forked child).
+    other_index: PathBuf,
     n_docs: usize,
 }
 
@@ -75,7 +79,9 @@ fn reference() -> &'static Reference {
         let first = run_probe("open", &template, &qfile, &[], None).expect("reference on-disk session");
         assert_eq!(first.len(), answers.len());
         let meta: Value = serde_json::from_str(&std::fs::read_to_string(template.join("facts/meta.json")).expect("meta.json after a complete run")).unwrap();
-        Reference { work, qfile, queries: qs.len(), answers, meta, template, n_docs: f.all.len() }
+        let other_index = work.join("other-index");
+        seed_other_documents(&other_index);
+        Reference { work, qfile, queries: qs.len(), answers, meta, template, other_index, n_docs: f.all.len() }
     })
 }
 
@@ -150,7 +156,8 @@ fn prepare(dir: &Path, prior: &Prior) {
         }
         Prior::OtherData => {
             copy_dir(&r.template, dir);
-            seed_other_documents(&facts_dir.join("index"));
+            let _ = std::fs::remove_dir_all(facts_dir.join("index"));
+            copy_dir(&r.other_index, &facts_dir.join("index"));
             set_meta(&|v| v["database_hash"] = json!("0123456789abcdef0123456789abcdef"));
         }
         Prior::MetaMissing => {
